@@ -41,6 +41,11 @@ func (bc *Config) Backoff(attempt uint) time.Duration {
 		return bc.BaseDelay
 	}
 	backoff, max := float64(bc.BaseDelay), float64(bc.MaxDelay)
+	if backoff <= 0 {
+		// A zero base delay never grows; multiplying it by an overflowed
+		// (+Inf) power below would yield NaN and a negative duration.
+		return 0
+	}
 	backoff *= math.Pow(bc.Multiplier, float64(attempt))
 	backoff = math.Min(backoff, max)
 	// Randomize the backoff delay
